@@ -38,6 +38,7 @@ const (
 	kVarShadow    = "var-self-shadow"
 	kConcatCmp    = "string-concat-compare"
 	kDeferResult  = "defer-call-result"
+	kDeferSwallow = "defer-swallows-panic"
 )
 
 type vinfo struct {
@@ -66,6 +67,7 @@ type fsig struct {
 	pure      bool // no writes to globals or through arguments, no defers, no impure calls
 	readsG    bool
 	safe      bool // can not panic
+	soft      bool // may raise an exception the VM can catch (explicit panic, index out of range)
 	hard      bool // may raise a fault the VM can not catch (division by zero, shift, slicing)
 	cost      int
 	fuel      bool // first parameter is a recursion fuel in [0,5]
@@ -94,6 +96,7 @@ type fctx struct {
 	recovers  bool
 	pure      bool
 	noPanic   bool
+	noSoft    bool // no catchable exceptions (a defer without recover is active)
 	noGlobals bool
 	protected bool
 	loops     []*loopctx
@@ -182,8 +185,8 @@ func blk(l []*Node) *Node { return &Node{K: "block", B: l} }
 type ex struct {
 	n      *Node
 	lo, hi float64
-	pan    bool // may panic
-	hard   bool // may raise an uncatchable VM fault
+	pan    bool // may raise an exception that the VM can catch (index out of range, explicit panic in a callee)
+	hard   bool // may raise a fault that the VM can not catch (division by zero, negative shift, slice bounds)
 	konst  bool
 	minLen int
 	ascii  bool
@@ -338,7 +341,7 @@ func (g *gen) arith(op string, a, b ex) ex {
 			r.lo = 0
 		}
 		if b.lo <= 0 && b.hi >= 0 {
-			r.pan, r.hard = true, true
+			r.hard = true
 		}
 	case "%":
 		m := math.Min(mag(a), math.Max(mag(b)-1, 0))
@@ -350,7 +353,7 @@ func (g *gen) arith(op string, a, b ex) ex {
 			r.hi = 0
 		}
 		if b.lo <= 0 && b.hi >= 0 {
-			r.pan, r.hard = true, true
+			r.hard = true
 		}
 	case "&":
 		switch {
@@ -374,7 +377,7 @@ func (g *gen) arith(op string, a, b ex) ex {
 }
 
 func (g *gen) shift(op string, a ex, k ex) ex {
-	r := ex{pan: a.pan || k.pan || k.lo < 0, hard: a.hard || k.hard || k.lo < 0, n: bin(op, a.n, k.n)}
+	r := ex{pan: a.pan || k.pan, hard: a.hard || k.hard || k.lo < 0, n: bin(op, a.n, k.n)}
 	if op == "<<" {
 		f := math.Pow(2, math.Max(k.hi, 0))
 		r.lo, r.hi = math.Min(a.lo*f, a.lo), math.Max(a.hi*f, a.hi)
@@ -390,7 +393,7 @@ func (g *gen) shift(op string, a ex, k ex) ex {
 	return r
 }
 
-func (g *gen) mayPanic() bool  { return !g.f.noPanic }
+func (g *gen) mayPanic() bool  { return !g.f.noPanic && !g.f.noSoft }
 func (g *gen) mayHard() bool   { return !g.f.noPanic && !g.f.protected }
 func (g *gen) account(c int)   { g.f.cost += c * g.f.mult }
 func (g *gen) room(c int) bool { return g.f.cost+c*g.f.mult <= g.f.budget }
@@ -743,6 +746,9 @@ func (g *gen) callOK(f *fsig, exprCtx bool) bool {
 	if g.f.noPanic && !f.safe {
 		return false
 	}
+	if g.f.noSoft && f.soft {
+		return false
+	}
 	if g.f.protected && f.hard {
 		return false
 	}
@@ -796,6 +802,9 @@ func (g *gen) noteCall(f *fsig) {
 	if f.hard {
 		g.f.sig.hard = true
 	}
+	if f.soft {
+		g.f.sig.soft = true
+	}
 	g.mark("call")
 }
 
@@ -840,7 +849,7 @@ func (g *gen) genCall(typ string, d int) (ex, bool) {
 	} else {
 		n = &Node{K: "call", S: f.name, A: args}
 	}
-	e := ex{n: n, pan: acc.pan || !f.safe, hard: acc.hard || f.hard, fresh: true}
+	e := ex{n: n, pan: acc.pan || f.soft || f == g.f.sig, hard: acc.hard || f.hard || f == g.f.sig, fresh: true}
 	if typ == "int" {
 		e.lo, e.hi = -storeB, storeB
 	}
@@ -1065,7 +1074,7 @@ func (g *gen) genStr(d int) ex {
 			return g.strLeaf()
 		}
 		g.mark("substring")
-		return ex{n: &Node{K: "slice", A: []*Node{vr(v.name), lo, hi}}, pan: pan, hard: pan, ascii: v.ascii, short: !v.growing, minLen: max(h-l, 0)}
+		return ex{n: &Node{K: "slice", A: []*Node{vr(v.name), lo, hi}}, hard: pan, ascii: v.ascii, short: !v.growing, minLen: max(h-l, 0)}
 	case 3:
 		b := g.genBytes(d - 1)
 		g.mark("bytes-to-string")
